@@ -375,4 +375,28 @@ theorem html_escape_globalsC18 (cfg : Cfg) (m : PVal) (sha : Str → Option Str)
 theorem normalize_text_globalsC18 (cfg : Cfg) (m : PVal) (sha : Str → Option Str) :
     normalize_text (globalsC18 cfg m sha) = normalize_text (globalsOf cfg) := rfl
 
+/-! ## the comprehension of `_render_tag_or_taglist` -/
+
+theorem foldl_snoc_C18 {α β : Type} (g : α → β) (l : List α) (acc : List β) :
+    l.foldl (fun b c => b ++ [g c]) acc = acc ++ l.map g := by
+  induction l generalizing acc with
+  | nil => simp
+  | cons a t ih => simp [ih]
+
+/-- a comprehension `[e(x) for x in xs]`, whatever its body: if each pass appends `g c` to the accumulated list -/
+theorem map_loop_C18 {α : Type} (E : α → PVal) (g : α → PVal) (l : List α)
+    (f : PVal → List PVal → PyM (ForInStep (List PVal)))
+    (hstep : ∀ c ∈ l, ∀ s, f (E c) s = .ok (.yield (s ++ [g c]))) :
+    forIn (l.map E) ([] : List PVal) f = .ok (l.map g) := by
+  have sim := forIn_sim (fun (s : List PVal) (b : List PVal) => s = b) embErr E l f
+    (fun c b => .ok (b ++ [g c])) [] [] rfl
+    (by
+      intro c hc s b hR
+      subst hR
+      exact ⟨_, hstep c hc _, _, rfl, rfl⟩)
+  rw [foldlM_ok (fun (b : List PVal) c => b ++ [g c]), foldl_snoc_C18] at sim
+  obtain ⟨s, hs, hR⟩ := sim
+  rw [hs, hR]
+  simp
+
 end HtmlVerif.SrcTie
